@@ -81,6 +81,20 @@ func decode(doc []byte, mode string) (e *env, err error, perr *rt.PanicInfo) {
 	perr = rt.Guard(func() {
 		if mode == "map" {
 			m := &ds.ValueMap{}
+			// every other document is decoded into a store that is in use (a long-lived VM whose variables the host
+			// refreshes): variables written since its last promotion, some read back, one deleted. Decoding replaces them.
+			if len(doc)%2 == 1 {
+				m.Store("zz_old1", ds.NewIntVal(1))
+				m.Store("zz_old2", ds.NewIntVal(2))
+				if len(doc)%4 == 1 {
+					for i := 0; i < 6; i++ {
+						m.Load("zz_old1")
+						m.Load("zz_none")
+					}
+					m.Store("zz_old3", ds.NewIntVal(3))
+					m.Delete("zz_old2")
+				}
+			}
 			err = json.Unmarshal(doc, m)
 			e.m = m
 			return
